@@ -120,52 +120,53 @@ theorem save_cursor0_toNat (a b c : BitVec 16) :
     of sections and segments; no writer-domain hypothesis): with `eh = e_ehsize`,
     `pht = e_phentsize * e_phnum` and `shoff` the section header table offset,
 
-      ELF header `[0, eh)`  <  program header table `[eh, eh + pht)`  ≤  every placed non-empty
+      ELF header `[0, eh)`  <  program header table `[eh, eh + pht)`  ≤  every non-empty
       file-occupying section `[offset, offset+size)`  ≤  `shoff`,  `shoff % 16 = 0`,
 
-    and two such sections are disjoint.  "Placed" = generated by a segment in pass 2 or outside all
-    segments (pass 3).  Hypotheses: fewer than 2^16 sections; a section that occupies file space
-    does not carry index 0 (`set_offset` is skipped for index 0; true when section 0 is the
-    SHT_NULL section); no wrap-around (`layoutNW`).
+    and any two such sections are disjoint.  Every section is placed — inside a segment it is
+    generated by `write_segment_data` (`get_ordered_segments` returns a permutation,
+    `orderedSegments_perm`), otherwise by `layout_sections_without_segments` (`placed_all`).
+    Hypotheses: fewer than 2^16 sections; a section that occupies file space does not carry
+    index 0 (`set_offset` is skipped for index 0; true when section 0 is the SHT_NULL section);
+    no wrap-around (`layoutNW`).
 
     Segments whose offset was initialised to 0 (`lseg_offset0`) need no special treatment here:
     they change `seg_start_pos` and the initial sizes, but their members are still placed at the
-    running cursor.  What they break is the *segment* range (it starts at file offset 0 and contains
-    the headers), which concerns `member_inside` below, not disjointness. -/
+    running cursor.  What they affect is the *segment* range (it starts at file offset 0 and
+    contains the headers), which concerns `member_inside` below, not disjointness. -/
 theorem layout_disjoint (o : Obj) (os : OStream) (r : SaveRes) (hdr : Bytes)
     (hs : save o os = .ok r) (hok : r.ok = true) (hh : o.hdr = some hdr)
     (hn : o.secs.length < 65536)
     (h0 : ∀ (i : Nat) (s : SecBuf), o.secs[i]? = some s → s.Occ → s.index ≠ 0)
     (hnw : layoutNW o hdr = true) :
-    ∃ res, layoutOf o hdr = .ok (some res) ∧
-      let eh := (Hdr.e_ehsize o.cls o.enc res.hdr0).toNat
-      let pht := (Hdr.e_phentsize o.cls o.enc res.hdr0).toNat * (Hdr.e_phnum o.cls o.enc res.hdr0).toNat
-      let shoff := r.obj.curPos.toNat
-      let placed := fun (k : Nat) => res.lay2.gen[k]? = some true ∨ withoutSegment r.obj.segs k = true
-      (∀ (k : Nat) (s : SecBuf), r.obj.secs[k]? = some s → placed k → s.Occ →
-        eh + pht ≤ s.offset.toNat ∧ s.endN ≤ shoff) ∧
-      (∀ (k1 k2 : Nat) (a b : SecBuf), k1 ≠ k2 → r.obj.secs[k1]? = some a → r.obj.secs[k2]? = some b →
-        placed k1 → placed k2 → a.Occ → b.Occ → a.endN ≤ b.offset.toNat ∨ b.endN ≤ a.offset.toNat) ∧
-      eh + pht < shoff ∧ shoff % 16 = 0 := by
+    let eh := (Hdr.e_ehsize o.cls o.enc (saveHdr0 o hdr)).toNat
+    let pht := (Hdr.e_phentsize o.cls o.enc (saveHdr0 o hdr)).toNat * (Hdr.e_phnum o.cls o.enc (saveHdr0 o hdr)).toNat
+    let shoff := r.obj.curPos.toNat
+    (∀ (k : Nat) (s : SecBuf), r.obj.secs[k]? = some s → s.Occ →
+      eh + pht ≤ s.offset.toNat ∧ s.endN ≤ shoff) ∧
+    (∀ (k1 k2 : Nat) (a b : SecBuf), k1 ≠ k2 → r.obj.secs[k1]? = some a → r.obj.secs[k2]? = some b →
+      a.Occ → b.Occ → a.endN ≤ b.offset.toNat ∨ b.endN ≤ a.offset.toNat) ∧
+    eh + pht < shoff ∧ shoff % 16 = 0 := by
   obtain ⟨hdr', res, hh', hl, hsegs, hcur, hsecs⟩ := save_layout o os r hs hok
   rw [hh] at hh'; simp only [Option.some.injEq] at hh'; subst hh'
-  refine ⟨res, hl, ?_⟩
   obtain ⟨hP, -, hlt, h16⟩ := layout_packed o hdr res hl hnw hn h0
   have hP' : Packed res.pos0.toNat res.pos3.toNat r.obj.secs
       (fun k => res.lay2.Gen k ∨ withoutSegment res.segs k = true) := by
     apply hP.of_hdrOf
     rw [hsecs, residentForSave_hdr]; simp
-  have hpos0 := (layoutOf_parts o hdr res hl).2.1
+  have hall := placed_all o hdr res hl hnw hn h0
+  obtain ⟨hhdr0, hpos0, -⟩ := layoutOf_parts o hdr res hl
   have hp0 : res.pos0.toNat = (Hdr.e_ehsize o.cls o.enc res.hdr0).toNat +
       (Hdr.e_phentsize o.cls o.enc res.hdr0).toNat * (Hdr.e_phnum o.cls o.enc res.hdr0).toNat := by
     rw [hpos0, save_cursor0_toNat]
-  simp only [hsegs, hcur]
+  rw [hhdr0] at hp0
+  simp only [hcur]
   refine ⟨?_, ?_, ?_, h16⟩
-  · intro k s hk hp ho
-    have := hP'.inR k s hk hp ho
+  · intro k s hk ho
+    have := hP'.inR k s hk (hall k) ho
     omega
-  · intro k1 k2 a b hne h1 h2 hp1 hp2 ha hb
-    exact hP'.disj k1 k2 a b hne h1 h2 hp1 hp2 ha hb
+  · intro k1 k2 a b hne h1 h2 ha hb
+    exact hP'.disj k1 k2 a b hne h1 h2 (hall k1) (hall k2) ha hb
   · have := hP'.le; omega
 
 /-! ### writer domain: one segment of `layout_segments_and_their_sections`
